@@ -28,6 +28,7 @@ fn spaces(tier: Tier) -> Vec<Space> {
     s.c01 = false;
     s.undo_points = true;
     s.updates = odd_updates();
+    s.batches = true;
     v.push(Space { name: "R2-undo-odd", sys: s, depth: if q { 6 } else { 8 } });
     let mut s = SyncSys::new(2);
     s.c14 = true;
